@@ -559,6 +559,38 @@ REG['In32'] = In32
 REG['C32'] = C32
 """, {"C32": lambda ch, u: (lambda n: _b(n) + u.bytes(n + 1) + u.bytes(n) + u.bytes(ch.draw("rest", 4)))(ch.draw("n", 4))})
 
+# 33  a class with constant positioning relative to the innermost packet, used standalone, nested at another offset
+#     and as the element of a sequence (so one Move object serves packets that start at different offsets)
+def _rec33(ch, u):
+    n = ch.draw("n", 6)
+    return _b(n) + u.bytes(n) + b"." * (7 - n) + u.bytes(2) + b"." * ((-(10)) % 4) + u.bytes(1)
+
+
+decl("positionednested", """
+class Rec33(Packet):
+    __bisturi__ = OPT
+    n = Int(1)
+    name = Data(n)
+    body = Data(2).at(8)
+    tail = Data(1).aligned(4, 'innermost-pkt')
+
+class Framed33(Packet):
+    __bisturi__ = OPT
+    magic = Data(2)
+    rec = Ref(Rec33)
+    t = Int(1)
+
+class Seq33(Packet):
+    __bisturi__ = OPT
+    k = Int(1)
+    recs = Ref(Rec33).repeated(k)
+REG['Rec33'] = Rec33
+REG['Framed33'] = Framed33
+REG['Seq33'] = Seq33
+""", {"Rec33": _rec33,
+      "Framed33": lambda ch, u: u.bytes(2) + _rec33(ch, u) + _b(u.byte()),
+      "Seq33": lambda ch, u: (lambda k: _b(k) + b"".join(_rec33(ch, u) for _ in range(k)))(ch.draw("k", 3))})
+
 
 BY_NAME = {d["name"]: d for d in POOL}
 
